@@ -72,9 +72,8 @@ theorem safe_incMeta {c : Sync.Cfg} {ch : PChain} {h0 : Nat} {evs : List Ev} {n 
         obtain ⟨b, sb, x1, x2, x3⟩ := hs.chain k h1 h2'
         exact ⟨b, sb, x1, by show (n.store.applyAll ws).getBlock k = _; rw [gb]; exact x2, x3⟩
       hdrGen := hs.hdrGen
-      datGen := hs.datGen
+      dat := hs.dat
       hdrSrc := hs.hdrSrc
-      datSrc := hs.datSrc
       sound := by
         intro k h1 h2
         have h2' : k ≤ (n.store.applyAll ws).height := h2
